@@ -200,6 +200,27 @@ def cases(tier):
                 add("nn.functional.%s_pool2d" % kind, {"shape": (1, 1, H, W), **key}, [("x", (1, 1, H, W), ANY)],
                     lambda T, fn=fn, k=(kh, kw), s=(sh, sw), p=(ph, pw), d=(dh, dw): fn(T["x"], k, s, p, d),
                     lambda A, kind=kind, k=(kh, kw), s=(sh, sw), p=(ph, pw), d=(dh, dw): R.pool(A["x"], k, s, p, d, 2, kind), max_paths=3000)
+    # operands that are non-contiguous views of their storage
+    import synapgrad.functional as F_
+    for (H, W, k, s_, p_, d_) in [(3, 4, (2, 2), (1, 1), (0, 0), (1, 1)), (4, 3, (2, 3), (2, 1), (1, 1), (1, 1)), (5, 3, (2, 2), (1, 2), (0, 1), (2, 1))]:
+        add("nn.functional.conv2d", {"HW": (H, W), "kernel": k, "stride": s_, "padding": p_, "dilation": d_, "input_layout": "transposed view"},
+            [("xt", (2, 2, W, H), ANY), ("w", (2, 2) + k, ANY)], lambda T, s_=s_, p_=p_, d_=d_: NF.conv2d(F_.transpose(T["xt"], 2, 3), T["w"], None, s_, p_, d_),
+            lambda A, s_=s_, p_=p_, d_=d_: R.conv(R.transpose(A["xt"], 2, 3), A["w"], None, s_, p_, d_, 2))
+        add("nn.functional.unfold", {"HW": (H, W), "kernel": k, "stride": s_, "padding": p_, "dilation": d_, "input_layout": "transposed view"}, [("xt", (1, 2, W, H), ANY)],
+            lambda T, k=k, s_=s_, p_=p_, d_=d_: NF.unfold(F_.transpose(T["xt"], 2, 3), k, d_, s_, p_), lambda A, k=k, s_=s_, p_=p_, d_=d_: R.unfold(R.transpose(A["xt"], 2, 3), k, d_, s_, p_))
+        add("nn.functional.avg_pool2d", {"HW": (H, W), "kernel": k, "stride": s_, "padding": (0, 0), "input_layout": "transposed view"}, [("xt", (1, 2, W, H), ANY)],
+            lambda T, k=k, s_=s_: NF.avg_pool2d(F_.transpose(T["xt"], 2, 3), k, s_, 0, 1), lambda A, k=k, s_=s_: R.pool(R.transpose(A["xt"], 2, 3), k, s_, 0, 1, 2, "avg"))
+    # a fully reversed axis order (x.T of a (W,H,C,N) buffer) is Fortran-contiguous: np.pad keeps that order
+    rev = lambda t: F_.movedim(t, (0, 1, 2, 3), (3, 2, 1, 0))
+    rrev = lambda a: R.movedim(a, (0, 1, 2, 3), (3, 2, 1, 0))
+    add("nn.functional.conv2d", {"HW": (3, 4), "kernel": (2, 2), "input_layout": "Fortran-contiguous (reversed axes)"}, [("xt", (4, 3, 2, 2), ANY), ("w", (1, 2, 2, 2), ANY)],
+        lambda T: NF.conv2d(rev(T["xt"]), T["w"], None, 1, (0, 1), 1), lambda A: R.conv(rrev(A["xt"]), A["w"], None, 1, (0, 1), 1, 2))
+    add("nn.functional.unfold", {"HW": (3, 3), "kernel": (2, 2), "input_layout": "Fortran-contiguous (reversed axes)"}, [("xt", (3, 3, 2, 2), ANY)],
+        lambda T: NF.unfold(rev(T["xt"]), (2, 2), 1, 1, 1), lambda A: R.unfold(rrev(A["xt"]), (2, 2), 1, 1, 1))
+    add("nn.functional.avg_pool2d", {"HW": (4, 4), "kernel": (2, 2), "input_layout": "Fortran-contiguous (reversed axes)"}, [("xt", (4, 4, 1, 2), ANY)],
+        lambda T: NF.avg_pool2d(rev(T["xt"]), 2), lambda A: R.pool(rrev(A["xt"]), 2, None, 0, 1, 2, "avg"))
+    add("nn.functional.max_pool1d", {"L": 5, "kernel": 2, "input_layout": "Fortran-contiguous (reversed axes)"}, [("xt", (5, 1, 1), ANY)],
+        lambda T: NF.max_pool1d(F_.movedim(T["xt"], (0, 1, 2), (2, 1, 0)), 2, 1), lambda A: R.pool(R.movedim(A["xt"], (0, 1, 2), (2, 1, 0)), 2, 1, 0, 1, 1, "max"), max_paths=3000)
     # int arguments / defaults
     add("nn.functional.conv2d", {"int_args": True, "stride": 2, "padding": 1}, [("x", (1, 1, 4, 3), ANY), ("w", (1, 1, 2, 2), ANY)], lambda T: NF.conv2d(T["x"], T["w"], None, 2, 1),
         lambda A: R.conv(A["x"], A["w"], None, 2, 1, 1, 2))
